@@ -5,7 +5,9 @@ package c16
 import (
 	"fmt"
 	"math/rand"
+	"net/http"
 	"strconv"
+	"verif/harness/internal/idp"
 
 	"github.com/zitadel/saml/pkg/provider"
 	"github.com/zitadel/saml/pkg/provider/xml/md"
@@ -176,6 +178,50 @@ func Run(dir, tier string, seed int64) error {
 		}
 		handle(l, requested[r.Intn(len(requested))], false)
 	}
-	run.Res.Rule = fmt.Sprintf("every ACS list up to length %d over 4 bindings x 5 indexes x 5 isDefault forms, times 6 requested bindings (exhaustive), checked on the exported function by an independent oracle of the documented rule (any minimal-index entry accepted); all lists of length <= 1, 600 lists with malformed index strings / empty locations and a seeded sample (%d) are evaluated by the go2v-generated Coq function and compared. distinct = (selection class, length).", maxLen, coqSample)
+	// end to end: what the SSO endpoint persists for a request is the documented selection over the entries IN THE ORDER OF THE
+	// REGISTERED METADATA DOCUMENT and the ProtocolBinding AS WRITTEN in the request (absent = none requested)
+	env, err := idp.NewEnv(idp.EnvConfig{Issuer: "https://idp.example/saml"})
+	if err != nil {
+		return err
+	}
+	nE2E := 250
+	if tier == "thorough" {
+		nE2E = 3000
+	}
+	for i := 0; i < nE2E; i++ {
+		n := 1 + r.Intn(4)
+		l := make([]Entry, n)
+		var acs []idp.ACS
+		for j := range l {
+			l[j] = Entry{indexes[r.Intn(len(indexes))], defaults[r.Intn(len(defaults))], bindings[r.Intn(len(bindings))], fmt.Sprintf("https://sp.example/acs%d", j)}
+			acs = append(acs, idp.ACS{Index: l[j].Index, Binding: l[j].Binding, Location: l[j].Location, IsDefault: l[j].IsDefault})
+		}
+		req := requested[r.Intn(4)]
+		env.Storage.ClearSPs()
+		if _, err := env.Storage.Register("app-1", idp.SPMeta{EntityID: "https://sp.example/metadata", ACS: acs}); err != nil {
+			run.Count("e2e-registration-refused")
+			continue
+		}
+		pb := ""
+		if req != "" {
+			pb = ` ProtocolBinding="` + req + `"`
+		}
+		doc := `<samlp:AuthnRequest xmlns:samlp="urn:oasis:names:tc:SAML:2.0:protocol" xmlns:saml="urn:oasis:names:tc:SAML:2.0:assertion" ID="_e2e" Version="2.0" IssueInstant="` + idp.NowInstant() + `"` + pb + `><saml:Issuer>https://sp.example/metadata</saml:Issuer></samlp:AuthnRequest>`
+		env.Storage.ResetLog()
+		env.Do(idp.ReqSpec{Method: http.MethodPost, Path: "/SSO", Body: []idp.Param{idp.Q("SAMLRequest", idp.B64([]byte(doc)))}}.HTTP())
+		run.Res.Evaluations++
+		run.Count("end-to-end")
+		for _, c := range env.Storage.Log() {
+			if c.Op != "CreateAuthRequest" {
+				continue
+			}
+			run.Count("end-to-end-persisted")
+			if !acceptable(l, req)[[2]string{c.Args[0], c.Args[1]}] {
+				run.Fail(coqgen.Failure{ID: 9000000 + i, Class: "end-to-end-selection-differs", What: fmt.Sprintf("persisted (%q,%q) is not the documented selection over the registered document order for requested binding %q", c.Args[0], c.Args[1], req),
+					Input: map[string]interface{}{"acs_in_document_order": l, "requested": req, "persisted_url": c.Args[0], "persisted_binding": c.Args[1]}})
+			}
+		}
+	}
+	run.Res.Rule = fmt.Sprintf("every ACS list up to length %d over 4 bindings x 5 indexes x 5 isDefault forms, times 6 requested bindings (exhaustive), checked on the exported function by an independent oracle of the documented rule (any minimal-index entry accepted); all lists of length <= 1, 600 lists with malformed index strings / empty locations and a seeded sample (%d) are evaluated by the go2v-generated Coq function and compared; end to end, %d random metadata documents (1-4 entries, any index order, several defaults) x requested binding {absent, POST, Redirect, Artifact} go through /SSO and the persisted pair must be the documented selection over the document order and the binding as written. distinct = (selection class, length).", maxLen, coqSample, nE2E)
 	return run.Finish()
 }
